@@ -149,6 +149,15 @@ fn step_case(cx: &mut Ctx, rng: &mut Rng, at: At, delta: i64, special: Option<u6
 		cx.rep.count("pay-invoice-with-own-ttl_blocks");
 	}
 	let wal = &cx.w.wallets[actor];
+	// the acting wallet has observed height h while its default account was active; sometimes another of its
+	// accounts is the active one when the step arrives (the wallet has still observed h)
+	let switched = at != At::PayInvoice && rng.chance(1, 3) && {
+		let _ = wal.create_account("other");
+		wal.set_account("other").is_ok()
+	};
+	if switched {
+		cx.rep.count(&format!("step-arrives-while-another-account-is-active:{:?}", at));
+	}
 	let before = digest(wal);
 	cx.rep.eval();
 	let res = catch(|| match at {
@@ -158,12 +167,13 @@ fn step_case(cx: &mut Ctx, rng: &mut Rng, at: At, delta: i64, special: Option<u6
 		At::PayInvoice => wal.process_invoice(&slate, InitTxArgs { minimum_confirmations: 1, ttl_blocks: own_ttl, ..Default::default() }).map(|_| ()),
 		At::FinalizeInvoice => wal.foreign_finalize(&slate).map(|_| ()),
 	});
-	let case = json!({"job":"c17","step": format!("{:?}", at), "observed_height": h, "cutoff": cutoff.to_string(), "delta": delta, "h0": h0, "actors_own_ttl_blocks": own_ttl});
+	let case = json!({"job":"c17","step": format!("{:?}", at), "observed_height": h, "cutoff": cutoff.to_string(), "delta": delta, "h0": h0, "actors_own_ttl_blocks": own_ttl, "another_account_active": switched});
+	let at_name = if switched { format!("{:?}(another-account-active)", at) } else { format!("{:?}", at) };
 	match res {
 		Err((loc, msg)) => cx.rep.violation(&format!("C17|panic|{}", loc), &msg, case),
 		Ok(Ok(())) => {
 			if expect_expired {
-				cx.rep.violation(&format!("C17|expired-slate-accepted|{:?}", at), &format!("{:?} accepted a slate with cutoff {} at observed height {}", at, cutoff, h), case);
+				cx.rep.violation(&format!("C17|expired-slate-accepted|{}", at_name), &format!("{:?} accepted a slate with cutoff {} at observed height {}", at, cutoff, h), case);
 			} else {
 				cx.rep.count(&format!("accepted-in-time:{:?}", at));
 			}
@@ -188,6 +198,11 @@ fn step_case(cx: &mut Ctx, rng: &mut Rng, at: At, delta: i64, special: Option<u6
 				cx.rep.count(&format!("refused-other:{:?}:{}", at, err_kind(&e)));
 			}
 		}
+	}
+	if switched {
+		// an accepted receipt lives in the other account: release it there
+		let _ = cx.w.wallets[actor].cancel(None, Some(slate.id));
+		let _ = cx.w.wallets[actor].set_account("default");
 	}
 	if cx.rep.samples.len() < 4 {
 		cx.rep.sample(json!({"step": format!("{:?}", at), "observed_height": h, "cutoff": cutoff.to_string(), "expected": if expect_expired { "refused as expired" } else { "not refused for expiry" }}));
@@ -234,6 +249,24 @@ fn refresh_case(cx: &mut Ctx, rng: &mut Rng, role: u8, n_other: usize, others_fi
 		make_others(cx, rng, &mut other_ids);
 	}
 	let b = 2 + rng.below(3);
+	// sometimes the sender also has an older send with a time-to-live that has no change output and is already
+	// mined, but not yet seen: the refresh confirms it by its kernel, and must then still release the expired one
+	if role == 0 && rng.chance(1, 3) {
+		let r = (|| -> Result<(), libwallet::Error> {
+			let wal = &cx.w.wallets[0];
+			let height = cx.w.height();
+			let coin = wal.all_outputs()?.into_iter().filter(|o| o.eligible_to_spend(height, 1) && o.root_key_id == wal.active_account().unwrap()).map(|o| o.value).max().unwrap_or(0);
+			let s = wal.init_send(InitTxArgs { amount: coin, amount_includes_fee: Some(true), minimum_confirmations: 1, max_outputs: 1, num_change_outputs: 1, ttl_blocks: Some(b + 1), selection_strategy_is_use_all: false, ..Default::default() })?;
+			wal.lock_outputs(&s)?;
+			let s2 = cx.w.wallets[1].receive(&s, None)?;
+			let s3 = wal.finalize(&s2)?;
+			wal.post(s3.tx_or_err()?)?;
+			Ok(())
+		})();
+		if r.is_ok() && cx.w.mine(None, true).is_ok() {
+			cx.rep.count("refresh-case:older-ttl-send-confirmed-only-by-its-kernel");
+		}
+	}
 	let r = (|| -> Result<(uuid::Uuid, u64), libwallet::Error> {
 		let s = cx.w.wallets[0].init_send(InitTxArgs { amount: 2_000_000_000 + rng.below(1_000_000_000), minimum_confirmations: 1, ttl_blocks: Some(b), selection_strategy_is_use_all: false, num_change_outputs: 1 + rng.below(2) as u32, ..Default::default() })?;
 		cx.w.wallets[0].lock_outputs(&s)?;
@@ -329,6 +362,41 @@ fn refresh_case(cx: &mut Ctx, rng: &mut Rng, role: u8, n_other: usize, others_fi
 	cx.cleanup();
 }
 
+/// A time-to-live given in blocks at initiation (or for the reply of an invoice payment) lies ahead whatever its
+/// size: the cutoff the wallet writes into the slate is beyond the height it has observed, or the call is an error.
+fn huge_ttl_case(cx: &mut Ctx, rng: &mut Rng, pay_invoice: bool) {
+	cx.fund();
+	cx.cleanup();
+	let h = match cx.observe() {
+		Some(h) => h,
+		None => return,
+	};
+	let ttl = u64::MAX - rng.below(3);
+	let case = json!({"job":"c17","scenario": if pay_invoice { "process_invoice_tx with a huge ttl_blocks" } else { "init_send_tx with a huge ttl_blocks" }, "ttl_blocks": ttl.to_string(), "observed_height": h});
+	cx.rep.eval();
+	let w = &*cx.w;
+	let res = catch(|| -> Result<Slate, libwallet::Error> {
+		if pay_invoice {
+			let inv = w.wallets[1].issue_invoice(IssueInvoiceTxArgs { amount: 1_000_000_000, ..Default::default() })?;
+			w.wallets[0].process_invoice(&inv, InitTxArgs { minimum_confirmations: 1, ttl_blocks: Some(ttl), ..Default::default() })
+		} else {
+			w.wallets[0].init_send(InitTxArgs { amount: 1_000_000_000, minimum_confirmations: 1, ttl_blocks: Some(ttl), ..Default::default() })
+		}
+	});
+	match res {
+		Err((loc, msg)) => cx.rep.violation(&format!("C17|panic|{}|huge-ttl_blocks", loc), &msg, case),
+		Ok(Err(e)) => cx.rep.count(&format!("huge-ttl_blocks:refused:{}", err_kind(&e))),
+		Ok(Ok(s)) => {
+			if s.ttl_cutoff_height != 0 && s.ttl_cutoff_height <= h {
+				cx.rep.violation("C17|cutoff-in-the-past-for-a-time-to-live-that-lies-ahead", &format!("ttl_blocks {} at height {} gave the slate cutoff {}: it is expired from the start", ttl, h, s.ttl_cutoff_height), case);
+			} else {
+				cx.rep.count("huge-ttl_blocks:cutoff-ahead");
+			}
+		}
+	}
+	cx.cleanup();
+}
+
 pub fn run(a: &Args) {
 	let mut rep = Report::new("C17");
 	let mut rng = Rng::new(a.shard_seed() ^ 0xC17);
@@ -368,5 +436,6 @@ pub fn run(a: &Args) {
 			}
 		}
 	}
+	huge_ttl_case(&mut cx, &mut rng, a.shard % 2 == 1);
 	rep.write(&a.out);
 }
